@@ -244,15 +244,27 @@ def obligations(tier: str) -> List[dict]:
             leaf('h_role_alignment', 300, ['inverted'] if m != 'noop' else [],
                  maxlen=4 if m == 'noop' else 3, model=m)
     else:
+        OPS2 = [(0, 0), (0, 1), (1, 0), (1, 1), (1, 2)]
         for m in ('default', 'amr', 'noop', 'custom'):
+            for op in (0, 1):
+                tree(m, 2, False, 1800, (op,))
             for ops in OPS2:
-                tree(m, 3, False, 3000, ops)
-                tree(m, 4, True, 3000, ops)
-        leaf('h_atom_alignment', 2400, ['tilde-in-string', 'aligned'],
+                tree(m, 3, True, 1800, ops)
+        for ops in OPS2:
+            for r0 in range(4):
+                obs.append({
+                    'name': f'E2 reading model=default n=3 small=False '
+                            f'ops={ops} i0_r={r0}', 'kind': 'e2',
+                    'fn': 'h_reading',
+                    'fixed': {'model': 'default', 'n': 3, 'small': False,
+                              'i0_op': ops[0], 'i1_op': ops[1], 'i0_r': r0},
+                    'timeout': 1800, 'bound': '<= 3 branches'})
+        leaf('h_atom_alignment', 1800, ['tilde-in-string', 'aligned'],
              quoted=True, maxlen=4)
-        leaf('h_atom_alignment', 2400, ['aligned'], quoted=False, maxlen=4)
+        leaf('h_atom_alignment', 1800, ['aligned'], quoted=False, maxlen=4)
         for m in ('default', 'noop', 'custom'):
-            leaf('h_role_alignment', 2400, maxlen=5, model=m)
+            leaf('h_role_alignment', 1800, maxlen=5 if m == 'noop' else 4,
+                 model=m)
     return obs
 
 
